@@ -143,8 +143,20 @@ class EngineBase(PathMgr):
         if getattr(self, 'norm_of', None):
             self.norm_member_fact(d, k, v)
         et = self.container_elem_type.get(smt.simp(d).get_id())
+        if et is not None and not self.is_initial_read(v) and self.is_old(d):
+            # typed field of a pre-existing container: the invariant speaks about the ENTRY heap - state it for the
+            # entry value under this key (the solver relates it to the current value where nothing was stored)
+            base = self.st.dct
+            while z3.is_app(base) and base.decl().kind() == z3.Z3_OP_STORE:
+                base = base.arg(0)
+            v0 = smt.simp(z3.Select(z3.Select(base, r), kk))
+            if not v0.eq(v) and self.is_initial_read(v0) and self.implied(v == v0):
+                # nothing was stored under this key of this container: the current value IS the entry value - read
+                # that (simpler) term instead, so typing and later reads through it stay canonical
+                v = v0
+                self.bound_ref(v)
         if et is not None and self.is_initial_read(v):
-            if et.startswith(('list[', 'dict[')):
+            if et.startswith(('list[', 'dict[', 'ddict[')) or et in ('list', 'dict'):
                 self.apply_field_type(v, et)
             else:
                 self._add_axiom(z3.Or(v == smt.ABSENT, self.type_formula(v, et)))
@@ -172,9 +184,36 @@ class EngineBase(PathMgr):
         self._add_axiom(z3.Select(l0, r) >= cnt)
 
     def key_term(self, k):
-        if self.kind_of(k) in ('str', 'none', 'ref', 'int'):
+        kd = self.kind_of(k)
+        if kd == 'ref':
+            c = self.class_of(k)
+            if c is not None and c.builtin and c.name == 'tuple':
+                # a tuple used as a dict key is compared STRUCTURALLY
+                items = self.seq_items(self.get_seq(k))
+                if items is None:
+                    from .core import Unsupported
+                    raise Unsupported('tuple of symbolic length used as a dict key')
+                return self.tuple_key([self.key_term(x) for x in items])
+        if kd in ('str', 'none', 'ref', 'int'):
             return smt.simp(k)
         return smt.simp(smt.key_of(k))
+
+    def tuple_key(self, parts):
+        """the dict key a tuple stands for: an uninterpreted constructor term, made injective (and distinct from every
+        other kind of key) by axioms instantiated pairwise over the constructor terms this path creates"""
+        n = len(parts)
+        f = z3.Function(f'tupkey{n}', *([Val] * n), Val)
+        t = smt.simp(f(*parts)) if n else z3.Const('tupkey0', Val)
+        made = self.__dict__.setdefault('_tupkeys', {}).setdefault(n, [])
+        if any(t.eq(u) for u, _ in made):
+            return t
+        # lives in a reserved id range: never an object, a class, a function or a scalar
+        self._add_axiom(z3.And(Val.is_ref(t), Val.r(t) <= -3_000_000 - n))
+        for u, uparts in made:
+            same = z3.And(*[a == b for a, b in zip(parts, uparts)]) if n else z3.BoolVal(True)
+            self._add_axiom((t == u) == same)
+        made.append((t, list(parts)))
+        return t
 
     def dict_set(self, d, k, v) -> None:
         r = Val.r(d)
